@@ -4,7 +4,8 @@
 (*   init      state a chain starts from                                    *)
 (*   blockmsg  execution-block message: bridge requests, the bridge system  *)
 (*             transactions the payload carried, result                     *)
-(*   hashes | pubkey | deposits | process | replace | finalize | approve    *)
+(*   hashes | pubkey | deposits | process | replace | finalize | approve |  *)
+(*   consolidation                                                         *)
 (*             one relayer transaction each, with its result class          *)
 (*   end       full projected module state                                  *)
 (***************************************************************************)
@@ -142,7 +143,12 @@ TraceApprove ==
   /\ IsEvent("approve")
   /\ Apply(ApproveCancellation(br, [wf |-> Ev.wf, pfOk |-> Ev.pfOk, ids |-> Ev.ids]), Ev.ok, "APPROVE-VERDICT")
 
-\* a voted message that touches no bridge state (consolidation) or any other transaction
+TraceConsolidation ==
+  /\ IsEvent("consolidation")
+  /\ Apply(IF Ev.pfOk THEN NewConsolidation(br, [wf |-> Ev.wf, parseOk |-> Ev.parseOk, nOuts |-> Ev.nOuts, payCur |-> Ev.payCur, voteOk |-> Ev.voteOk])
+            ELSE Fail(br), Ev.ok, "CONSOLIDATION-VERDICT")
+
+\* any other transaction (touches no bridge state)
 TraceOther ==
   /\ IsEvent("other")
   /\ UNCHANGED << br, hist >>
@@ -173,7 +179,7 @@ TraceReimport ==
   /\ UNCHANGED hist
 
 TNext == TraceReimport \/ TraceInitEv \/ TraceBlockMsg \/ TraceHashes \/ TracePubkey \/ TraceDeposits \/ TraceProcess \/ TraceReplace
-         \/ TraceFinalize \/ TraceApprove \/ TraceOther \/ TraceEnd
+         \/ TraceFinalize \/ TraceApprove \/ TraceConsolidation \/ TraceOther \/ TraceEnd
 
 Reached == PrintT(<<"TRACE_REACHED", TLCGet("stats").diameter - 1, Len(Trace)>>)
 
